@@ -29,7 +29,9 @@ this run (`KitModel/Generated/C19.lean`) equals the order read back out of the L
   are the property's: one minute, ten seconds, half;
 * `fetchIdentityCertificate`: fresh P-256 key → CSR of that key → request → guards → (with a write
   directory) encode that key, that chain, current anchors → ONE `dir.Write` of the three → SVID of that
-  key and chain. -/
+  key and chain;
+* `context.With` stores `SVIDSource()` and `From` returns it (consumers through the context call the
+  same `GetX509SVID`). -/
 theorem source_shape_as_modelled :
     Shape.okPath runMain = Shape.modelRunOk ++ Shape.modelRotStop ∧
     Shape.errPath runMain runOnErr = Shape.modelRunErr ∧
@@ -42,7 +44,8 @@ theorem source_shape_as_modelled :
     rotBody.head? = some .ifBeforeRenewContinue ∧ rotOnErr = [.retryWaitContinue, .ctxDoneReturn] ∧
     minute = wakeCapNs ∧ tenSec = retryNs ∧ wakeCapNs = 60000000000 ∧ retryNs = 10000000000 ∧
     renewalDivisor = 2 ∧
-    fetchMain = Shape.fetchMainExpected ∧ fetchDir = Shape.fetchDirExpected ∧ Shape.fetchProbe = true := by
+    fetchMain = Shape.fetchMainExpected ∧ fetchDir = Shape.fetchDirExpected ∧ Shape.fetchProbe = true ∧
+    contextPassesSVIDSource = true := by
   decide
 
 /-- The renewal automaton applies exactly the source's rules (all states, not probes): the timer is
@@ -175,6 +178,49 @@ example : ∃ s, Reach .fixed init s ∧ s.run = .rotPendLock 1 ∧ s.svid = som
     (.tail .run (.tail .run (.tail .run (.tail .run (.tail .run (.tail (.reply true) (.tail .run (.tail .run
     (.tail .run (.tail .callRun (.refl _) rfl) rfl) rfl) rfl) rfl) rfl) rfl) rfl) rfl) rfl) rfl) rfl) rfl) rfl) rfl) rfl,
     rfl, rfl, rfl, rfl⟩
+
+/-- **A fetched SVID is always installed** (the link between the two models: the renewal automaton
+swaps atomically; in the lock-level LTS the swap is `Lock … Unlock`, possibly behind readers).  From
+every reachable state of the repaired code in which the Run goroutine carries a fetched token `w`
+(initial fetch or renewal, anywhere between the issuer's answer and the assignment), internal steps
+alone bring Run to its next rest with `currentSVID = w` — whatever readers hold or want the lock. -/
+theorem swap_completes {s : St} (hreach : Reach .fixed init s) {w : Nat} (hw : s.run.carrying = some w) :
+    ∃ t, IntPath .fixed true s t ∧ t.run = .rotWait ∧ t.svid = some w := by
+  obtain ⟨hb, hf⟩ := fixedInv_reach baseInv_init fixedInv_init hreach
+  have hg := goodInv_reach goodInv_init hreach
+  obtain ⟨t, hp, hrest⟩ := run_to_rest true (total s) s (Nat.le_refl _) hb hf
+  have hpf : s.run.postFetch = true := by
+    cases hr : s.run <;> simp [RunPc.carrying, hr] at hw <;> rfl
+  obtain ⟨hgood, hpft⟩ := good_path hp hpf
+  have hgt := goodInv_reach goodInv_init (reach_of_intPath hreach hp)
+  obtain ⟨hbt, _⟩ := fixedInv_reach baseInv_init fixedInv_init (reach_of_intPath hreach hp)
+  -- the head of `good` is `w`
+  have hhead : s.good.head? = some w := by
+    have := hg.carry; rw [hw] at this
+    obtain ⟨rest, hgd, _⟩ := this
+    rw [hgd]; rfl
+  -- at rest after a fetch, on the success path: rotWait
+  have hinit : s.init = some true := by
+    rw [hb.init]
+    cases hr : s.run <;> simp [RunPc.carrying, hr] at hw <;> rfl
+  have hinit' : t.init = some true := (init_path hb hp).1 true hinit
+  have hrun : t.run = .rotWait := by
+    have h1 := hbt.init; rw [hinit'] at h1
+    cases hr : t.run <;> simp [RunPc.atRest, hr] at hrest <;> simp [RunPc.postFetch, hr] at hpft <;>
+      simp [RunPc.initVal, hr] at h1
+    rfl
+  refine ⟨t, hp, hrun, ?_⟩
+  have := hgt.carry
+  rw [hrun] at this
+  simp only [RunPc.carrying] at this
+  rw [this, hgood, hhead]
+
+/-- Non-vacuity: the renewal has succeeded with token 1 while a reader holds the read lock. -/
+example : ∃ s, Reach .fixed init s ∧ s.run.carrying = some 1 ∧ s.readers = 1 := by
+  refine ⟨_, .tail .run (.tail (.reply true) (.tail .renew (.tail (.cons 0) (.tail (.cons 0) (.tail .callGet
+    (.tail .run (.tail .run (.tail .run (.tail .run (.tail .run (.tail (.reply true) (.tail .run (.tail .run
+    (.tail .run (.tail .callRun (.refl _) rfl) rfl) rfl) rfl) rfl) rfl) rfl) rfl) rfl) rfl) rfl) rfl) rfl) rfl) rfl) rfl,
+    rfl, rfl⟩
 
 /-- **The code before the repair deadlocks**: `GetX509SVID` first, then `Run`.  The state is reachable
 in the model of the old code, and from it *no* continuation — more callers, cancellations, anything
